@@ -257,7 +257,7 @@ func (a *basicDownloadAdapter) download(t *Transfer, cb ProgressCallback, authOk
 	}
 
 	err = tools.RenameFileCopyPermissions(dlfilename, t.Path)
-	if _, err2 := os.Stat(t.Path); err2 == nil {
+	if err != nil && tools.VerifyFileHash(t.Oid, t.Path) == nil {
 		// Target file already exists, possibly was downloaded by other git-lfs process
 		return nil
 	}
